@@ -194,14 +194,74 @@ class Census:
         desc = "%s(%s)" % (kind, ", ".join(pp(o) for o in ops))
         key = self.key(fn, "assert", desc)
         rule = self.prefix + "assert"
+        by, miss = self.discharge(an, pv, a)
+        if by is None and fn["kind"] == "Closure":
+            # a closure that is only ever called directly is judged where it is called: its captured values are known there
+            by2 = self.discharge_at_call_sites(fn, a)
+            if by2:
+                by = by2
+        if by == "ALWAYS-FAILS":
+            rep.bad(rule, key, where, "%s in %s always fails" % (kind, fn["qual"]))
+            return
+        if by:
+            rep.ok(rule, key, where, by)
+        else:
+            rep.bad(rule, key, where,
+                    "%s in %s may fail: missing fact: %s" % (kind, fn["qual"], miss),
+                    {"cond": pp(cond), "ops": [pp(o) for o in ops],
+                     "facts": sorted(_ppf(f) for f in facts)[:40], "inherited": [repr(x) for x in assume]})
+
+    def discharge_at_call_sites(self, cfn, a):
+        from .engine import State
+        F = self.F
+        parent = F.fn(cfn["qual"].split("::{closure")[0])
+        if parent is None:
+            return None
+        prog = program(F)
+        pan = analyze_fn(F, parent, inherited_assumptions(F, parent))
+        ppv = Prover(pan)
+        sites = []
+        for c in pan.calls():
+            uses = [x for x in c.args if x.op == "agg" and x.args[0] == "closure" and x.args[1] == cfn["qual"]]
+            f0 = c.args[0] if c.args else None
+            if f0 is not None and f0.op == "ref":
+                f0 = pan.read(State(pan.exit_env.get(c.block, {}), c.facts), (f0.args[0], f0.args[1]))
+            elif f0 is not None and f0.op == "refval":
+                f0 = f0.args[0]
+            direct = c.declared_norm in ("ops::Fn::call", "ops::FnMut::call_mut", "ops::FnOnce::call_once") and f0 is not None \
+                and f0.op == "agg" and f0.args[0] == "closure" and f0.args[1] == cfn["qual"]
+            if direct:
+                sites.append((c, f0))
+            elif uses:
+                return None        # handed to someone else: the context in which it runs is not known
+        if not sites:
+            return None
+        env_ty = norm(cfn["body"]["locals"][1]["ty"]) if len(cfn["body"]["locals"]) > 1 else ""
+        for c, clo in sites:
+            stc = State(pan.exit_env.get(c.block, {}), c.facts)
+            tup = c.args[1] if len(c.args) > 1 else None
+            argv = list(tup.args[4]) if tup is not None and tup.op == "agg" and tup.args[0] == "tuple" else []
+            cargs = [T.refval(clo) if env_ty.startswith("&") else clo] + argv
+            cond = prog.subst(pan, stc, a["cond"], cargs)
+            ops = [prog.subst(pan, stc, o, cargs) for o in a["ops"]]
+            if cond is None or any(o is None for o in ops):
+                return None
+            by, _ = self.discharge(pan, ppv, dict(a, cond=cond, ops=ops, facts=c.facts))
+            if not by or by == "ALWAYS-FAILS":
+                return None
+        return "holds at each of the %d direct call sites of the closure (captured values substituted)" % len(sites)
+
+    def discharge(self, an, pv, a):
+        """(reason, missing-fact text) for one Assert terminator under the facts recorded with it"""
+        kind, ops, facts, cond = a["kind"], a["ops"], a["facts"], a["cond"]
         by = None
+        miss = ""
         # constant condition
         if cond.op == "const":
             if bool(cond.args[1]) == a["expected"]:
                 by = "const: the asserted condition folds to the expected value"
             else:
-                rep.bad(rule, key, where, "%s in %s always fails" % (kind, fn["qual"]))
-                return
+                return "ALWAYS-FAILS", ""
         elif an.truth(facts, cond) == a["expected"]:
             by = "fact: the asserted condition is implied by a dominating guard"
         elif kind in ("div_zero", "rem_zero"):
@@ -250,13 +310,7 @@ class Census:
             miss = "%s %s %s does not overflow" % (pp(x), "+" if "Add" in kind else "*", pp(y))
         else:
             miss = "unknown assert kind " + kind
-        if by:
-            rep.ok(rule, key, where, by)
-        else:
-            rep.bad(rule, key, where,
-                    "%s in %s may fail: missing fact: %s" % (kind, fn["qual"], miss),
-                    {"cond": pp(cond), "ops": [pp(o) for o in ops],
-                     "facts": sorted(_ppf(f) for f in facts)[:40], "inherited": [repr(x) for x in assume]})
+        return by, miss
 
     # ------------------------------------------------------------------ calls
     def check_call(self, fn, an, pv, cs):
